@@ -1,17 +1,325 @@
-//! C07 — stub (monitor not written yet)
-use serde_json::Value;
+//! C07 — namespace and subpath structure cannot be forged or climb upwards.
+//!
+//! An independent scanner locates the raw namespace and subpath pieces of the input (between
+//! raw '/'), decodes each with its own decoder, and every accepted string is judged: segments
+//! reported = non-skipped pieces, decoded; no empty / '.' / '..' subpath segment; no empty
+//! namespace segment; no '/' inside a decoded piece.
 
-use super::Fail;
-use crate::obs::{Ctx, Tier};
+use std::fmt::Debug;
+use std::str::FromStr;
 
-pub const RULE: &str = "";
+use purl::{PackageType, PurlShape, SmallString};
+use serde_json::{json, Value};
 
-pub fn requirements(_tier: Tier) -> Vec<(&'static str, u64)> {
-    vec![("not-implemented", 1)]
+use super::{str_field, Fail};
+use crate::gen;
+use crate::obs::{self, Ctx, Out, Tier};
+use crate::rng::fnv;
+use crate::shrink::shrink_str;
+use crate::spell;
+
+pub const RULE: &str = "a case is one input string for one instantiation; non-trivial = accepted by the parser AND its namespace or subpath region contains an empty piece, a dot piece or an escape; distinct by hash of (instantiation, string)";
+
+pub fn requirements(tier: Tier) -> Vec<(&'static str, u64)> {
+    let q = tier == Tier::Quick;
+    vec![
+        ("accepted-and-judged", if q { 200_000 } else { 2_000_000 }),
+        ("refused", 100_000),
+        ("seen:encoded-dot-refused-or-dropped", 1_000),
+        ("seen:hidden-slash-refused", 1_000),
+        ("seen:raw-dot-dropped", 1_000),
+        ("seen:empty-piece-dropped", 1_000),
+        ("seen:backslash-kept", 100),
+        ("namespace-segments-compared", 50_000),
+        ("subpath-segments-compared", 50_000),
+    ]
 }
 
-pub fn run(_ctx: &mut Ctx) {}
+/// Lenient percent-decoding (invalid escapes stay literal). None if the bytes are not UTF-8.
+fn dec_lenient(x: &str) -> Option<String> {
+    let b = x.as_bytes();
+    let hv = |c: u8| -> Option<u8> {
+        match c {
+            b'0'..=b'9' => Some(c - b'0'),
+            b'a'..=b'f' => Some(c - b'a' + 10),
+            b'A'..=b'F' => Some(c - b'A' + 10),
+            _ => None,
+        }
+    };
+    let mut out = Vec::with_capacity(b.len());
+    let mut i = 0;
+    while i < b.len() {
+        if b[i] == b'%' && i + 2 < b.len() {
+            if let (Some(h), Some(l)) = (hv(b[i + 1]), hv(b[i + 2])) {
+                out.push(h * 16 + l);
+                i += 3;
+                continue;
+            }
+        }
+        out.push(b[i]);
+        i += 1;
+    }
+    String::from_utf8(out).ok()
+}
 
-pub fn replay(_monitor: &str, _case: &Value) -> Result<Option<Fail>, String> {
-    Err("not implemented".into())
+/// Raw namespace pieces and raw subpath pieces of `s` (split on raw '/'), or None when the
+/// string has no `pkg:` prefix / no path structure to speak of.
+pub fn raw_regions(s: &str) -> Option<(Vec<&str>, Option<Vec<&str>>)> {
+    let r = s.strip_prefix("pkg:")?.trim_start_matches('/');
+    let (r, sub) = match r.rfind('#') {
+        Some(i) => (&r[..i], Some(&r[i + 1..])),
+        None => (r, None),
+    };
+    let path = match r.rfind('?') {
+        Some(i) => &r[..i],
+        None => r,
+    };
+    let after = &path[path.find('/')? + 1..];
+    let nn = match after.rfind('@') {
+        Some(i) => &after[..i],
+        None => after,
+    };
+    let ns: Vec<&str> = match nn.rfind('/') {
+        Some(i) => nn[..i].split('/').collect(),
+        None => vec![],
+    };
+    Some((ns, sub.map(|x| x.split('/').collect())))
+}
+
+#[derive(Default)]
+pub struct Seen {
+    pub judged: bool,
+    pub interesting: bool,
+    pub raw_dot_dropped: bool,
+    pub empty_dropped: bool,
+    pub encoded_dot_dropped: bool,
+    pub backslash: bool,
+    pub ns_compared: bool,
+    pub sub_compared: bool,
+}
+
+pub fn judge<T>(s: &str) -> (Option<bool>, Seen, Option<Fail>)
+where
+    T: FromStr + PurlShape,
+    <T as PurlShape>::Error: From<<T as FromStr>::Err> + Debug,
+{
+    let mut seen = Seen::default();
+    let p = match obs::parse::<T>(s) {
+        Out::Ok(p) => p,
+        Out::Err(_) => return (Some(false), seen, None),
+        Out::Panic(m) => return (None, seen, Some(Fail::tagged("panicked", m.clone(), format!("from_str({s:?}) panicked: {m}")))),
+    };
+    let ns = p.namespace().map(str::to_owned);
+    let sub = p.subpath().map(str::to_owned);
+    // structural clauses, independent of the scanner
+    if let Some(ns) = &ns {
+        if ns.split('/').any(|x| x.is_empty()) {
+            return (Some(true), seen, Some(Fail::tagged("namespace-empty-segment", "", format!("{s:?} accepted with namespace {ns:?}: empty segment or leading/trailing '/'"))));
+        }
+    }
+    if let Some(sub) = &sub {
+        if let Some(bad) = sub.split('/').find(|x| x.is_empty() || *x == "." || *x == "..") {
+            return (Some(true), seen, Some(Fail::tagged("subpath-bad-segment", bad.to_string(), format!("{s:?} accepted with subpath {sub:?}: it has the segment {bad:?}"))));
+        }
+    }
+    let Some((ns_raw, sub_raw)) = raw_regions(s) else { return (Some(true), seen, None) };
+    seen.judged = true;
+    // namespace: exactly the non-empty raw pieces, decoded
+    let mut want_ns: Vec<String> = Vec::new();
+    for piece in &ns_raw {
+        if piece.is_empty() {
+            seen.empty_dropped = true;
+            seen.interesting = true;
+            continue;
+        }
+        let Some(d) = dec_lenient(piece) else { return (Some(true), seen, None) };
+        if piece.contains('%') {
+            seen.interesting = true;
+        }
+        if d.contains('/') {
+            return (Some(true), seen, Some(Fail::tagged("hidden-slash-accepted", "namespace", format!("{s:?} accepted although the namespace piece {piece:?} decodes to {d:?}; namespace reported as {ns:?}"))));
+        }
+        if d.contains('\\') {
+            seen.backslash = true;
+        }
+        want_ns.push(d);
+    }
+    let got_ns: Vec<String> = ns.as_deref().map(|n| n.split('/').map(str::to_owned).collect()).unwrap_or_default();
+    seen.ns_compared = !want_ns.is_empty();
+    if got_ns != want_ns {
+        return (Some(true), seen, Some(Fail::tagged("namespace-segments-differ", "", format!("{s:?}: the pieces between raw '/' decode to {want_ns:?} but the namespace reported is {ns:?}"))));
+    }
+    // subpath: the raw pieces that are not "", ".", "..", decoded; decoded dots may have been dropped
+    let mut want_sub: Vec<String> = Vec::new();
+    if let Some(sub_raw) = &sub_raw {
+        for piece in sub_raw {
+            if piece.is_empty() {
+                seen.empty_dropped = true;
+                seen.interesting = true;
+                continue;
+            }
+            if *piece == "." || *piece == ".." {
+                seen.raw_dot_dropped = true;
+                seen.interesting = true;
+                continue;
+            }
+            let Some(d) = dec_lenient(piece) else { return (Some(true), seen, None) };
+            if piece.contains('%') {
+                seen.interesting = true;
+            }
+            if d.contains('/') {
+                return (Some(true), seen, Some(Fail::tagged("hidden-slash-accepted", "subpath", format!("{s:?} accepted although the subpath piece {piece:?} decodes to {d:?}; subpath reported as {sub:?}"))));
+            }
+            if d == "." || d == ".." {
+                // an implementation may refuse these (as today) or drop them; never report them
+                seen.encoded_dot_dropped = true;
+                continue;
+            }
+            if d.contains('\\') {
+                seen.backslash = true;
+            }
+            want_sub.push(d);
+        }
+    }
+    let got_sub: Vec<String> = sub.as_deref().map(|n| n.split('/').map(str::to_owned).collect()).unwrap_or_default();
+    seen.sub_compared = !want_sub.is_empty();
+    if got_sub != want_sub {
+        return (Some(true), seen, Some(Fail::tagged("subpath-segments-differ", "", format!("{s:?}: the significant pieces between raw '/' decode to {want_sub:?} but the subpath reported is {sub:?}"))));
+    }
+    (Some(true), seen, None)
+}
+
+fn judge_dyn(inst: &str, s: &str) -> (Option<bool>, Seen, Option<Fail>) {
+    match inst {
+        "String" => judge::<String>(s),
+        "SmallString" => judge::<SmallString>(s),
+        _ => judge::<PackageType>(s),
+    }
+}
+
+fn one(ctx: &mut Ctx, inst: &'static str, s: &str) {
+    ctx.st.evaluations += 1;
+    let (acc, seen, f) = judge_dyn(inst, s);
+    match acc {
+        Some(true) => {
+            if seen.judged {
+                ctx.st.count("accepted-and-judged");
+            }
+            if seen.interesting {
+                ctx.st.nontrivial(fnv(format!("{inst}\u{0}{s}").as_bytes()));
+            }
+            if seen.raw_dot_dropped {
+                ctx.st.count("seen:raw-dot-dropped");
+            }
+            if seen.empty_dropped {
+                ctx.st.count("seen:empty-piece-dropped");
+            }
+            if seen.encoded_dot_dropped {
+                ctx.st.count("seen:encoded-dot-refused-or-dropped");
+            }
+            if seen.backslash {
+                ctx.st.count("seen:backslash-kept");
+            }
+            if seen.ns_compared {
+                ctx.st.count("namespace-segments-compared");
+            }
+            if seen.sub_compared {
+                ctx.st.count("subpath-segments-compared");
+            }
+            if seen.interesting {
+                ctx.st.sample(|| json!({"instantiation": inst, "input": s, "verdict": "accepted; segments = decoded significant pieces"}));
+            }
+        },
+        Some(false) => {
+            ctx.st.count("refused");
+            let up = s.to_ascii_uppercase();
+            if up.contains("%2F") {
+                ctx.st.count("seen:hidden-slash-refused");
+            }
+            if up.contains("%2E") {
+                ctx.st.count("seen:encoded-dot-refused-or-dropped");
+            }
+        },
+        None => {},
+    }
+    if let Some(f) = f {
+        let (kind, tag) = (f.kind.clone(), f.tag.clone());
+        let min = shrink_str(s, &mut |c| judge_dyn(inst, c).2.map_or(false, |g| g.kind == kind && g.tag == tag));
+        let g = judge_dyn(inst, &min).2.unwrap_or(f);
+        ctx.st.violation("C07.segments", g.signature("C07.segments", &min), g.detail, json!({"instantiation": inst, "input": min, "original_input": s}));
+    }
+}
+
+const PIECES: [&str; 17] =
+    ["", ".", "..", "%2e", "%2E", ".%2e", "%2e.", "%2E%2e", "%2F", "%2f", "a%2Fb", "%5C", "..%2F", "a", "b.c", "é", "%41"];
+
+pub fn run(ctx: &mut Ctx) {
+    // exhaustive: every sequence of <= N pieces, as namespace and as subpath, bare and with
+    // the other components present, for all three instantiations
+    let maxn = if ctx.quick() { 4 } else { 5 };
+    let mut idx = 0u64;
+    let mut total = 0u64;
+    for len in 0..=maxn {
+        let count = 17u64.pow(len as u32);
+        for j in 0..count {
+            idx += 1;
+            total += 1;
+            if !ctx.mine(idx) {
+                continue;
+            }
+            let mut rem = j;
+            let mut seq: Vec<&str> = Vec::with_capacity(len);
+            for _ in 0..len {
+                seq.push(PIECES[(rem % 17) as usize]);
+                rem /= 17;
+            }
+            let joined = seq.join("/");
+            let forms = [
+                format!("pkg:t/{joined}/n"),
+                format!("pkg:npm/{joined}/n@1?k=v#s"),
+                format!("pkg:t/n#{joined}"),
+                format!("pkg:maven/g/n@1?k=v#{joined}"),
+            ];
+            for (i, s) in forms.iter().enumerate() {
+                one(ctx, "String", s);
+                if i % 2 == 1 {
+                    one(ctx, "Purl", s);
+                } else {
+                    one(ctx, "SmallString", s);
+                }
+            }
+        }
+    }
+    if ctx.worker == 0 {
+        ctx.st.exhaustive.push(json!({"name": format!("every sequence of <= {maxn} pieces from {PIECES:?} joined by '/', as namespace and as subpath, bare and with other components; String + SmallString/Purl"), "size": total * 4, "completed": true}));
+    }
+    // random: legal spellings, mutated corpus, the token language in the subpath / namespace contexts
+    let mut r = ctx.rng("c07.g2");
+    for _ in 0..ctx.share(100_000, 3_000_000) {
+        let known = r.chance(1, 3);
+        let t = spell::gen_tuple(&mut r, known);
+        let mask = spell::random_mask(&mut r);
+        let s = spell::spell(&mut r, &t, mask).assemble();
+        one(ctx, "String", &s);
+        one(ctx, if known { "Purl" } else { "SmallString" }, &s);
+    }
+    let (corpus, _) = gen::load_corpus();
+    let mut r = ctx.rng("c07.g10");
+    for _ in 0..ctx.share(200_000, 6_000_000) {
+        let s = gen::mutate(&mut r, &corpus);
+        one(ctx, "String", &s);
+        one(ctx, "Purl", &s);
+    }
+    let (w, n, quick) = (ctx.worker, ctx.nworkers, ctx.quick());
+    let mut f = |_i: u64, s: &str| one(ctx, "String", s);
+    let ctxs = ["pkg:t/", "pkg:t/n#", "pkg:t/x/", "pkg:t/n#x/"];
+    let a = gen::for_each_lang(&ctxs, gen::SIGMA_FULL, if quick { 3 } else { 4 }, w, n, 0, &mut f);
+    let b = gen::for_each_lang(&ctxs, gen::SIGMA_STRUCT, if quick { 5 } else { 6 }, w, n, a, &mut f);
+    if ctx.worker == 0 {
+        ctx.st.exhaustive.push(json!({"name": "token language in 4 namespace/subpath contexts (String)", "size": a + b, "completed": true}));
+    }
+}
+
+pub fn replay(_monitor: &str, case: &Value) -> Result<Option<Fail>, String> {
+    Ok(judge_dyn(str_field(case, "instantiation")?, str_field(case, "input")?).2)
 }
